@@ -241,6 +241,11 @@ GOLDCB == [Bp("GOLDCB", C2,
                !.flows = << Flow(3, 11, "GIFT", FALSE, TRUE), Flow(11, 3, "GIFT", FALSE, TRUE) >>,
                !.exo = << Exo(1, "DEM_GOOD"), Exo(10, "DEM_GOOD"), Exo(9, "r") >>]
 
+\* the same with B's business also supplying A's goods market (a cross-currency supplier booked through the FX desk);
+\* the gold-standard central bank may be declared before or after that market
+GOLDCBIMP == [GOLDCB EXCEPT !.name = "GOLDCBIMP", !.free = {2, 4, 7}, !.freeq = {2, 7},
+                 !.suppliers = << [mkt |-> 7, sup |-> 12, rule |-> TRUE], [mkt |-> 7, sup |-> 4, rule |-> FALSE] >>]
+
 \* ---- three currencies, gifts around the ring A -> B -> C -> A ----------------------------------------------------
 C3cur == << [code |-> "A", cur |-> "AD"], [code |-> "B", cur |-> "BD"], [code |-> "K", cur |-> "KD"] >>
 Econ(cc) == << Sd(cc, "GOV", "ConsolidatedGovernment"), [Sd(cc, "HH", "Household") EXCEPT !.gift = TRUE],
@@ -280,12 +285,18 @@ TRIREG == [Bp("TRIREG", C3reg,
 \* ---- as TWOBUS, the second business being an instance of a user-defined subclass of FixedMarginBusiness -----------
 TWOBUSX == [TWOBUS EXCEPT !.name = "TWOBUSX", !.sectors[5].kind = "FixedMarginBusinessSub"]
 
+\* local variables spelled like numeric words (an inflation rate INF, a rate nan) and variables defined as exactly them
+SIMINF == [SIM EXCEPT !.name = "SIMINF", !.freeq = {2, 5}, !.sectors[2].params = << "INF", "EXP_INF", "nan", "EXP_nan", "Infinity", "EXP_Infinity" >>]
+
 \* the business also buys its own good (intermediate consumption): one sector on both sides of a market
 SELFBUY == [SIM EXCEPT !.name = "SELFBUY", !.freeq = {3, 6}, !.sectors[3].extra = << "DEM_GOOD" >>,
                        !.exo = << Exo(1, "DEM_GOOD"), Exo(3, "DEM_GOOD") >>]
 
 \* a dividend-paying business that the user has made taxable (IsTaxable = True), next to capitalists
 TAXBUS == [SIMCAP EXCEPT !.name = "TAXBUS", !.free = {3, 4, 5, 7}, !.freeq = {3, 5}, !.sectors[3].taxable = TRUE]
+
+\* the household has a tax rate of its own (the documented per-sector TaxRate variable), the capitalists have none
+TAXOWN == [SIMCAP EXCEPT !.name = "TAXOWN", !.free = {2, 3, 4, 5}, !.freeq = {2, 4}, !.sectors[2].params = << "TaxRate" >>]
 
 \* two sectors that could receive the dividends of the business: ill-formed (refused since fix 49dd591; before it the
 \* first declared one was paid, so the result depended on the declaration order - MC_ModelBuild_asfound2.cfg)
@@ -296,6 +307,6 @@ TWOCAPS == [Bp("TWOCAPS", C1,
               Sd("C", "TF", "TaxFlow"), Sd("C", "LAB", "Market"), Sd("C", "GOOD", "Market") >>, {3, 4, 5, 8})
         EXCEPT !.freeq = {4, 5}, !.exo = << Exo(1, "DEM_GOOD") >>, !.wellformed = FALSE]
 
-AllBlueprints == {SELFBUY, TAXBUS, TWOCAPS, RINGFAN, SIMPLAIN, SIMBOOK, SIMEX1BOOK, PCBOOK, REGBOOK, REG2BOOK, MULTIX, TRIREG, TWOBUSX, RING3, REG2, GOLDCB, TWOBUS, TWOGIFTS, SIMBOND, IMPORTRES, NOEXT3, SIMX, SIMR, SIMEXR, JOIN2, JOIN2X, GOLD2, GOLDNOEXT, SIM, SIMEX, SIMCAP, SIMMARGIN, SIMMON, SIMDEP, PC, MULTI, FED, GIFT, GIFT2, IMPORT, NOEXT1, NOEXT2, NOSUP, TWOSUP}
+AllBlueprints == {TAXOWN, GOLDCBIMP, SIMINF, SELFBUY, TAXBUS, TWOCAPS, RINGFAN, SIMPLAIN, SIMBOOK, SIMEX1BOOK, PCBOOK, REGBOOK, REG2BOOK, MULTIX, TRIREG, TWOBUSX, RING3, REG2, GOLDCB, TWOBUS, TWOGIFTS, SIMBOND, IMPORTRES, NOEXT3, SIMX, SIMR, SIMEXR, JOIN2, JOIN2X, GOLD2, GOLDNOEXT, SIM, SIMEX, SIMCAP, SIMMARGIN, SIMMON, SIMDEP, PC, MULTI, FED, GIFT, GIFT2, IMPORT, NOEXT1, NOEXT2, NOSUP, TWOSUP}
 QuickBlueprints == { [b EXCEPT !.free = b.freeq] : b \in AllBlueprints }
 =============================================================================
